@@ -32,7 +32,7 @@ def main():
         if rc != 0:
             rc, o = run(['git', '-C', '/repo', 'apply', '--3way', '--whitespace=nowarn', patch])
         if rc != 0:
-            run(['git', '-C', '/repo', 'checkout', '--', '.'])
+            run(['git', '-C', '/repo', 'reset', '-q', '--hard', 'HEAD'])  # also clears a half-applied 3-way merge
             skipped.append(name)
             print(name, 'PATCH NO LONGER APPLIES'); continue
         caught = []
